@@ -37,7 +37,12 @@ def gen_hierarchy(rng, nmax=5, names=3):
                 excl = {c: sorted(set(rng.choice(range(1, names + 1)) for _ in range(rng.choice([0, 0, 1, 2])))) for c in EXCL_TAG}
                 parents.append(dict(target=j, excl=excl))
         locs = {c: sorted(set(rng.choice(range(1, names + 1)) for _ in range(rng.choice([0, 1, 1, 2])))) for c in CATS}
-        layers.append(dict(id=i, type=t, parents=parents, locals=locs))
+        # which local diag comms are single ECU jobs (the others are services); unit groups: name -> content (objects
+        # without an id: two layers may define EQUAL ones)
+        jobs = [x for x in locs["diag_comms"] if rng.random() < 0.3]
+        ugs = {str(x): rng.choice(["COUNTRY", "COUNTRY", "EQUIV-UNITS"])
+               for x in sorted(set(rng.choice(range(1, names + 1)) for _ in range(rng.choice([0, 0, 1, 1, 2]))))}
+        layers.append(dict(id=i, type=t, parents=parents, locals=locs, jobs=jobs, unit_groups=ugs))
     return layers
 
 
@@ -58,17 +63,25 @@ def emit(layers):
         dops = "".join(f'<DATA-OBJECT-PROP ID="{nm}.dop{x}"><SHORT-NAME>n{x}</SHORT-NAME><COMPU-METHOD><CATEGORY>IDENTICAL</CATEGORY></COMPU-METHOD>'
                        f'<DIAG-CODED-TYPE BASE-DATA-TYPE="A_UINT32" xsi:type="STANDARD-LENGTH-TYPE"><BIT-LENGTH>8</BIT-LENGTH></DIAG-CODED-TYPE>'
                        f'<PHYSICAL-TYPE BASE-DATA-TYPE="A_UINT32"/></DATA-OBJECT-PROP>' for x in loc["dops"])
-        svcs = "".join(f'<DIAG-SERVICE ID="{nm}.svc{x}"><SHORT-NAME>n{x}</SHORT-NAME><REQUEST-REF ID-REF="{nm}.rq{x}"/></DIAG-SERVICE>'
-                       for x in loc["diag_comms"])
+        jobs = L.get("jobs", [])
+        svcs = "".join(
+            (f'<SINGLE-ECU-JOB ID="{nm}.svc{x}"><SHORT-NAME>n{x}</SHORT-NAME><PROG-CODES><PROG-CODE><CODE-FILE>job.jar</CODE-FILE>'
+             f'<SYNTAX>JAR</SYNTAX><REVISION>1</REVISION></PROG-CODE></PROG-CODES></SINGLE-ECU-JOB>') if x in jobs else
+            f'<DIAG-SERVICE ID="{nm}.svc{x}"><SHORT-NAME>n{x}</SHORT-NAME><REQUEST-REF ID-REF="{nm}.rq{x}"/></DIAG-SERVICE>'
+            for x in loc["diag_comms"])
+        ugs = "".join(f"<UNIT-GROUP><SHORT-NAME>n{x}</SHORT-NAME><CATEGORY>{cat}</CATEGORY></UNIT-GROUP>"
+                      for x, cat in sorted(L.get("unit_groups", {}).items()))
         reqs = "".join(f'<REQUEST ID="{nm}.rq{x}"><SHORT-NAME>rq_{nm}_{x}</SHORT-NAME><PARAMS><PARAM xsi:type="CODED-CONST"><SHORT-NAME>sid</SHORT-NAME>'
                        f'<CODED-VALUE>{16 * (L["id"] + 1) + x}</CODED-VALUE><DIAG-CODED-TYPE BASE-DATA-TYPE="A_UINT32" xsi:type="STANDARD-LENGTH-TYPE">'
-                       f'<BIT-LENGTH>8</BIT-LENGTH></DIAG-CODED-TYPE></PARAM></PARAMS></REQUEST>' for x in loc["diag_comms"])
+                       f'<BIT-LENGTH>8</BIT-LENGTH></DIAG-CODED-TYPE></PARAM></PARAMS></REQUEST>' for x in loc["diag_comms"] if x not in jobs)
         gnrs = "".join(f'<GLOBAL-NEG-RESPONSE ID="{nm}.gnr{x}"><SHORT-NAME>n{x}</SHORT-NAME><PARAMS><PARAM xsi:type="CODED-CONST"><SHORT-NAME>sid</SHORT-NAME>'
                        f'<CODED-VALUE>127</CODED-VALUE><DIAG-CODED-TYPE BASE-DATA-TYPE="A_UINT32" xsi:type="STANDARD-LENGTH-TYPE">'
                        f'<BIT-LENGTH>8</BIT-LENGTH></DIAG-CODED-TYPE></PARAM></PARAMS></GLOBAL-NEG-RESPONSE>' for x in loc["gnrs"])
         auds = "".join(f'<ADDITIONAL-AUDIENCE ID="{nm}.aud{x}"><SHORT-NAME>n{x}</SHORT-NAME></ADDITIONAL-AUDIENCE>' for x in loc["audiences"])
         body = (f"<SHORT-NAME>{nm}</SHORT-NAME>" + (f"<FUNCT-CLASSS>{fcs}</FUNCT-CLASSS>" if fcs else "") +
-                (f"<DIAG-DATA-DICTIONARY-SPEC><DATA-OBJECT-PROPS>{dops}</DATA-OBJECT-PROPS></DIAG-DATA-DICTIONARY-SPEC>" if dops else "") +
+                (("<DIAG-DATA-DICTIONARY-SPEC>" + (f"<DATA-OBJECT-PROPS>{dops}</DATA-OBJECT-PROPS>" if dops else "") +
+                  (f"<UNIT-SPEC><UNIT-GROUPS>{ugs}</UNIT-GROUPS></UNIT-SPEC>" if ugs else "") + "</DIAG-DATA-DICTIONARY-SPEC>")
+                 if dops or ugs else "") +
                 (f"<DIAG-COMMS>{svcs}</DIAG-COMMS>" if svcs else "") + (f"<REQUESTS>{reqs}</REQUESTS>" if reqs else "") +
                 (f"<GLOBAL-NEG-RESPONSES>{gnrs}</GLOBAL-NEG-RESPONSES>" if gnrs else "") +
                 (f"<ADDITIONAL-AUDIENCES>{auds}</ADDITIONAL-AUDIENCES>" if auds else "") +
@@ -89,6 +102,8 @@ def impl_views(layers):
     from odxtools.database import Database
     from odxtools.exceptions import OdxError
     db = Database()
+    import io
+    db.add_auxiliary_file("job.jar", io.BytesIO(b"job"))
 
     def go():
         for d in (emit(layers), hc.cpsubset_doc(), hc.cpspec_doc()):
@@ -99,8 +114,13 @@ def impl_views(layers):
     if e is not None:
         return ("error", "OdxError" if isinstance(e, OdxError) else type(e).__name__, str(e)[:200]), db
     out = {c: {} for c in CATS}
+    out["services"], out["jobs"], out["unit_groups"] = {}, {}, {}
     for dl in db.diag_layers:
         i = int(dl.short_name[1:])
+        out["services"][i] = sorted([int(o.short_name[1:]), src_of(o)] for o in dl.services)
+        out["jobs"][i] = sorted([int(o.short_name[1:]), src_of(o)] for o in getattr(dl, "single_ecu_jobs", []))
+        us = dl.diag_data_dictionary_spec.unit_spec if dl.diag_data_dictionary_spec is not None else None
+        out["unit_groups"][i] = sorted([o.short_name[1:], o.category.value] for o in (us.unit_groups if us is not None else []))
         out["diag_comms"][i] = [[int(o.short_name[1:]), src_of(o)] for o in dl.diag_comms]
         out["dops"][i] = [[int(o.short_name[1:]), src_of(o)] for o in dl.diag_data_dictionary_spec.data_object_props]
         out["gnrs"][i] = [[int(o.short_name[1:]), src_of(o)] for o in dl.global_negative_responses]
@@ -154,6 +174,41 @@ def spec_visible(layers, cat):
     return [vis(i) for i in range(len(layers))]
 
 
+def spec_visible_ug(layers):
+    """unit groups carry no id: objects are (name, content) and two parents of equal priority exposing EQUAL
+    objects are no conflict; no NOT-INHERITED list applies to them"""
+    memo = {}
+
+    def vis(i):
+        if i in memo:
+            return memo[i]
+        L = layers[i]
+        cands = {}
+        for p in L["parents"]:
+            pv = vis(p["target"])
+            if pv == "conflict":
+                memo[i] = "conflict"
+                return "conflict"
+            pr = PRIO[layers[p["target"]]["type"]]
+            for n, content in pv.items():
+                cands.setdefault(n, []).append((pr, content))
+        res = {}
+        for n, lst in cands.items():
+            if n in L.get("unit_groups", {}):
+                continue
+            top = max(pr for pr, _ in lst)
+            cs = {c for pr, c in lst if pr == top}
+            if len(cs) > 1:
+                memo[i] = "conflict"
+                return "conflict"
+            res[n] = cs.pop()
+        res.update(L.get("unit_groups", {}))
+        memo[i] = res
+        return res
+
+    return [vis(i) for i in range(len(layers))]
+
+
 def main(argv=None):
     ck = Check("C09", argv)
     ck.prologue()
@@ -176,6 +231,16 @@ def main(argv=None):
                    dict(id=2, type=3, parents=[dict(target=0, excl=e), dict(target=1, excl=e)], locals=one)])
         hs.append([dict(id=0, type=4, parents=[], locals=one), dict(id=1, type=2, parents=[], locals=one),
                    dict(id=2, type=3, parents=[dict(target=1, excl=e), dict(target=0, excl=e)], locals=z)])
+        # two parents of equal priority defining EQUAL unit groups (objects without id): no conflict; unequal ones: conflict
+        hs.append([dict(id=0, type=2, parents=[], locals=z, unit_groups={"1": "COUNTRY"}),
+                   dict(id=1, type=2, parents=[], locals=z, unit_groups={"1": "COUNTRY"}),
+                   dict(id=2, type=3, parents=[dict(target=0, excl=e), dict(target=1, excl=e)], locals=z)])
+        hs.append([dict(id=0, type=2, parents=[], locals=z, unit_groups={"1": "COUNTRY"}),
+                   dict(id=1, type=2, parents=[], locals=z, unit_groups={"1": "EQUIV-UNITS"}),
+                   dict(id=2, type=3, parents=[dict(target=0, excl=e), dict(target=1, excl=e)], locals=z)])
+        # a local single ECU job overrides an inherited service of the same name
+        hs.append([dict(id=0, type=2, parents=[], locals=one),
+                   dict(id=1, type=3, parents=[dict(target=0, excl=e)], locals=one, jobs=[1])])
         for _ in range(250 if quick else 4000):
             hs.append(gen_hierarchy(rng, nmax=rng.choice([2, 3, 4, 5]), names=rng.choice([1, 2, 3])))
     wires = []
@@ -205,14 +270,16 @@ def main(argv=None):
         views, db = impl_views(layers)
         rep = {"layers": layers}
         specs = {cat: spec_visible(layers, cat) for cat in CATS}
-        any_conflict = any(v == "conflict" for cat in CATS for v in specs[cat])
+        ugspec = spec_visible_ug(layers)
+        any_conflict = any(v == "conflict" for cat in CATS for v in specs[cat]) or any(v == "conflict" for v in ugspec)
         if isinstance(views, tuple):
             ck.hist("load", views[1])
             if views[1] != "OdxError":
                 ck.violation(f"loading raised {views[1]}: {views[2]}", rep)
             elif not any_conflict:
                 ck.violation(f"loading failed although the hierarchy has no inheritance conflict: {views[2]}", rep)
-            elif mres is not None and not any(mres[(hi, c, L["id"])][:2] == [-1, 1] for c in CATS for L in layers):
+            elif mres is not None and not any(v == "conflict" for v in ugspec) and \
+                    not any(mres[(hi, c, L["id"])][:2] == [-1, 1] for c in CATS for L in layers):
                 ck.violation("implementation reports a conflict, the model none", dict(rep, broken="correspondence avail"),
                              found_input=False)
             continue
@@ -231,6 +298,20 @@ def main(argv=None):
                     break
             if bad:
                 break
+        if not bad:
+            # services and single ECU jobs: the visible diag comms split by the kind of the object which won
+            for L in layers:
+                vis = specs["diag_comms"][L["id"]]
+                want_s = sorted([n, sl] for n, sl in vis.items() if n not in layers[sl].get("jobs", []))
+                want_j = sorted([n, sl] for n, sl in vis.items() if n in layers[sl].get("jobs", []))
+                if views["services"][L["id"]] != want_s or views["jobs"][L["id"]] != want_j:
+                    bad = (f"layer L{L['id']} lists services {views['services'][L['id']]} and single ECU jobs {views['jobs'][L['id']]}; "
+                           f"its visible diag comms are the services {want_s} and the jobs {want_j}")
+                    break
+                want_u = sorted([n, c] for n, c in ugspec[L["id"]].items())
+                if views["unit_groups"][L["id"]] != want_u:
+                    bad = f"layer L{L['id']} sees the unit groups {views['unit_groups'][L['id']]}, inheritance prescribes {want_u}"
+                    break
         if bad:
             ck.violation(bad, rep)
             continue
@@ -256,8 +337,9 @@ def main(argv=None):
                     break
         if hi % 50 == 0:
             ck.sample({"layers": layers, "diag_comms": views["diag_comms"]})
-    ck.assumptions = ["objects of different layers are never equal (their ODXLINK ids differ), so 'equal objects' means the same "
-                      "object reached through several parents", "hierarchies are acyclic (parents are earlier layers)"]
+    ck.assumptions = ["objects with an ODXLINK id of different layers are never equal, so for them 'equal objects' means the same "
+                      "object reached through several parents; unit groups (no id) are compared by value (oracle only, not in the model)",
+                      "hierarchies are acyclic (parents are earlier layers)"]
     ck.finish(
         trusted_base=[
             "Coq 8.16.1 kernel; no axioms", "translator: DiagLayerType priorities copied into Generated.v",
